@@ -198,7 +198,7 @@ Section Inv.
         cbn [forallb] in He. rewrite andb_true_r in He. unfold ok_entryb in He. cbn [fst snd] in He.
         rewrite !andb_true_iff in He. destruct He as [_ Hne]. destruct v0; [discriminate Hne|]. reflexivity.
       - (* string *) pose proof (hv_other (Vocab.FStr s)) as E. cbn in E. rewrite E. reflexivity.
-      - (* time *) destruct (hv_time t) as [t' [E Es]]. rewrite E. unfold t_value. rewrite Es. reflexivity.
+      - (* time *) destruct (hv_time t) as [t' [E Es]]. rewrite E. unfold t_value, time_writable. rewrite Es. reflexivity.
       - pose proof (hv_other (FDur d)) as E. cbn in E. rewrite E. reflexivity.
       - pose proof (hv_other (FUint u)) as E. cbn in E. rewrite E. reflexivity.
       - pose proof (hv_other (FInt z)) as E. cbn in E. rewrite E. reflexivity.
